@@ -145,5 +145,13 @@ CHECKS += [
         "note": "trusted: Debian python3-cryptography on CPython 3.11, the cbor2/filelock shims (validated by the RFC 8613 Appendix C vectors in the self-test), refcodec for tamper surgery, the independent option reader in checks/c11.py",
     },
 ]
+CHECKS += [
+    {
+        "id": "C12", "engine": "E5 OSCORE environment + Hypothesis (symbolic operation sequences)", "level": "exploration",
+        "technique": "model-based property testing of the replay window against a reference set model; generated arrival orders with repeats and forgeries over the wire, metamorphic relation (with vs without forgeries); Echo-recovery histories",
+        "text": "The bare window runs generated operation sequences chosen relative to a set model and is compared on a whole neighbourhood after every step; a context pair exchanges generated request sequences delivered in generated orders with repeats and interleaved forgeries, where the three stated clauses are asserted and the fate of authentic messages must not depend on the forgeries; an uninitialised receiver is driven through challenge, fresh/wrong Echo and replays. Sampled histories.",
+        "note": "trusted: as C11; the reference set model and the forgery surgery in checks/c12.py",
+    },
+]
 claimed = {c["id"] for c in CHECKS}
 NOT_APPLICABLE = [{"property_id": i, "reason": "check not built yet in this session (planned, see DESIGN.md section 3); no claim is made"} for i in ALL if i not in claimed]
